@@ -77,7 +77,7 @@ def _is_finite(x):
         return False
 
 
-def run_scenario(spec, with_model=True):
+def run_scenario(spec, with_model=True, blog=None):
     """returns dict(diff, lines, expect, got, real) - `real` carries what the monitors look at"""
     space, opt = build_optimizer(spec)
     names = list(space)
@@ -105,6 +105,7 @@ def run_scenario(spec, with_model=True):
     records = []
     clock = drv.VClock(0)
     rec = drv.Recorder(opt, f, dur_of_step, clock, by_call)
+    rec.blog = blog
     with drv.patched_driver_modules(clock):
         for cs in opt_calls:
             mem = cs.get("memory", "on")
